@@ -438,6 +438,7 @@ def lex_part(g):
     # tokens that the syntax part never mentions (numbered after all symbols of the syntax part)
     out.append("zq9 : 'z' 'q' '9' ;")
     out.append("aq7 : 'a' 'q' '7' ;")
+    out.append("zQ9 : 'z' 'Q' '9' ;")      # equal to zq9 up to letter case (orders that fold case tie on the pair)
     for t in g.terms:
         if not t.startswith('"') and any(t in b for (_, b, _, _) in g.prods):
             out.append("%s : %s ;" % (t, " ".join("'%s'" % c for c in t)))
